@@ -9,6 +9,6 @@ VARIABLES
   mode,
   \* @type: Str -> Int;
   saved
-NCalls == 25
+NCalls == 27
 INSTANCE SessionInd
 ====
